@@ -299,10 +299,10 @@ CLAIMED = {
     },
     "C09": {
         "text": ("Two parts, both run by ./check C09.  Purity (Properties/C09.v, evaluator model Eval.v): for every "
-                 "document and every path without a subtraction collector (collectors with + and & included, at any "
-                 "nesting) no stream of a required query or of exists() ends in a write to the document "
-                 "(C09_required_pure_partial / C09_exists_pure_partial); C09_subtraction_refuted: (h)-(h.a) deletes "
-                 "h.a from the loaded document (listed finding F16).  Creation (Properties/C09b.v, models Create.v / "
+                 "document and EVERY path (collectors with +, - and & included, at any nesting) no stream of a "
+                 "required query or of exists() ends in a write to the document (C09_required_pure / "
+                 "C09_exists_pure, full theorems since the repair of F16: (h)-(h.a) used to delete h.a from the "
+                 "loaded document, the subtraction now reduces a shallow copy).  Creation (Properties/C09b.v, models Create.v / "
                  "Mutate.v): for all well-formed documents and all straight key/index paths with an existing prefix "
                  "and a missing tail of any lengths, every node that existed before keeps its place, info and value "
                  "(C09_create_frame, no guard), the path resolves in the new document to the supplied value and "
@@ -311,7 +311,7 @@ CLAIMED = {
                  "a set; _refuted witnesses).  Tie: a deep snapshot (structure + identities + anchors) of the real "
                  "document around every query; creation compared node by node with object identities."),
         "design_ref": "DESIGN.md section 4 (C09), docs/C09.md, docs/C09b.md",
-        "note": NOTE_COMMON + "  The purity guard is syntactic (no subtraction collector anywhere); optional queries that create nodes are F16b / the creation half.",
+        "note": NOTE_COMMON + "  Optional queries that create nodes are F16b / the creation half.",
         "technique": "Coq proof (no-mutation stream invariant; embedding/frame lemma for creation) + snapshot differential correspondence",
     },
     "C02": {
